@@ -466,6 +466,76 @@ def subrect(rep, fns):
             else:
                 rep.violation("S6-subrect", key, W + "extension/io/%s/detail/read.hpp:%s" % (fmt, c.get("line")), {"begin": bdef[:200], "end": edef[:200]})
     rep.floor("obligations:S6", 8)
+    # ---- S16 the rows that are read are those of the region
+    rep.rule("S16 in the readers of bmp/pnm/targa/png/jpeg every loop over output rows runs to _settings._dim.y, the height of the requested region, not to the height of the "
+             "destination view: a view that is larger than the region (legal: only smaller ones are refused) otherwise receives file rows from outside the region "
+             "(pnm, jpeg), or a short read's stale row buffer")
+    seen16 = set()
+    for f in fns:
+        fmt = fmt_of(f)
+        if fmt not in ("bmp", "pnm", "targa", "png", "jpeg") or not f["name"].startswith("boost::gil::reader::") or f.get("body") is None:
+            continue
+        g = R.canonize(f)
+        for lp in R.loops_of(g["body"]):
+            if lp.get("k") != "For":
+                continue
+            iv, i0, cond, inc = R.for_shape(lp)
+            if iv is None or cond is None:
+                continue
+            m = re.fullmatch(r"\(%s < (.+)\)" % re.escape(iv), cond)
+            if not m:
+                continue
+            bound = m.group(1).replace("this.", "")
+            # only loops that store rows into the destination (directly, or through the row helpers of the format)
+            if not R.calls_in(lp.get("body"), lambda n: n.endswith("::read") or n.split("::")[-1] in ("copy_data", "read_text_row", "read_row", "copy_row_if_needed")) or \
+                    not any(("_cc_policy" in R.key(c.get("obj") or {})) or c["callee"]["name"].split("::")[-1] in ("copy_data", "read_text_row", "read_row", "copy_row_if_needed")
+                            for c, _ in R.calls_in(lp.get("body"), lambda n: True)):
+                continue
+            view_h = re.fullmatch(r"\$\d+\.height\(\)", bound) is not None
+            if bound != "_settings._dim.y" and not view_h:
+                continue
+            key = "S16:%s:%s:row loop to %s" % (fmt, f["name"].split("::")[-1], "the view's height" if view_h else "_settings._dim.y")
+            if key in seen16:
+                continue
+            seen16.add(key)
+            rep.count("obligations:S16")
+            if view_h:
+                rep.violation("S16-region-rows", key, W + "extension/io/%s/detail/read.hpp:%s" % (fmt, lp.get("line")),
+                              {"loop": cond, "example": "P5 file 1x2 with rows {2},{13}; read_view into a 1x2 view with settings (top_left (0,0), dim (1,1)): row 1 of the view receives 13, a pixel outside the requested region"})
+            else:
+                rep.ok("S16-region-rows", key, cond)
+    rep.floor("obligations:S16", 5)
+    # ---- S17 a top-down targa file is stored through a flipped view: of the region, not of the whole destination
+    rep.rule("S17 targa reader::apply: every flipped_up_down_view that a top-down file is read through is the flip of "
+             "subimage_view(dst_view, 0, 0, _settings._dim.x, _settings._dim.y): flipping the whole destination puts the region at the bottom of a larger view "
+             "(bottom-up files and every other format put it at the top left)")
+    for f in fns:
+        if fmt_of(f) != "targa" or not f["name"].startswith("boost::gil::reader::apply") or f.get("body") is None:
+            continue
+        g = R.canonize(f)
+        args = sorted({R.key(c["args"][0]).replace("this.", "") for c, _ in R.calls_in(g["body"], lambda n: n.endswith("flipped_up_down_view")) if c.get("args")})
+        if not args:
+            continue
+        dinit = {k: (R.key(v).replace("this.", "") if v is not None else None) for k, v in R.decls_of(g["body"]).items()}
+        nasg = {}
+        for k_, _, _ in R.effects(g["body"]):
+            m_ = re.match(r"\((%\d+) [-+*/]?= ", k_)
+            if m_:
+                nasg[m_.group(1)] = nasg.get(m_.group(1), 0) + 1
+        args = sorted({(dinit.get(a) if re.fullmatch(r"%\d+", a) and dinit.get(a) and not nasg.get(a) else a) for a in args})   # a local that is never assigned again stands for its initialiser
+        key = "S17:targa:reader::apply:flipped destination"
+        if key in seen16:
+            continue
+        seen16.add(key)
+        rep.count("obligations:S17")
+        want = "subimage_view($0,0,0,_settings._dim.x,_settings._dim.y)"
+        bad = [a for a in args if a.replace(" ", "") != want]
+        if bad:
+            rep.violation("S17-flipped-region", key, R.fn_where(f), {"flipped": bad, "expected": want,
+                          "example": "24-bit 1x1 top-down file read with settings (top_left (0,0), dim (1,1)) into a 1x2 view: the pixel lands in row 1, row 0 stays untouched"})
+        else:
+            rep.ok("S17-flipped-region", key, args)
+    rep.floor("obligations:S17", 1)
 
 
 def partial_rows(rep, wd):
